@@ -5,6 +5,7 @@
 //!   a5replay ops                           -> list of ops
 //!
 //! It can only CONFIRM a violation (find a failing input); it never clears one.
+mod geo;
 mod ops;
 mod spec;
 
@@ -51,6 +52,11 @@ fn main() {
             for r in 0..=30 {
                 println!("area {} {} cells={}", r, b(a5::cell_area(r)), a5::get_num_cells(r));
             }
+        }
+        "dump-geo" => {
+            // float-pipeline reference dump (run ONCE against the pinned reference release to freeze
+            // /verif/contracts/reference/geo_dump_v0.6.2.txt): ID of sample points, centre, corners, centre -> ID
+            geo::dump_geo();
         }
         "dump-origins" => {
             for o in a5::core::origin::get_origins() {
